@@ -50,6 +50,31 @@ fn p1_mul128(a: &blst::blst_p1, scalar_le: &[u8]) -> blst::blst_p1 {
     unsafe { blst::blst_p1_mult(&mut r, a, scalar_le.as_ptr(), 128) };
     r
 }
+/// a point T != 0 of E(Fp) whose order divides the cofactor (no component in the prime-order group G1): r * P for the
+/// first curve point P with a small abscissa, r = order of G1
+fn cofactor_point() -> Option<blst::blst_p1> {
+    const GROUP_ORDER_LE: [u8; 32] = [
+        0x01, 0x00, 0x00, 0x00, 0xff, 0xff, 0xff, 0xff, 0xfe, 0x5b, 0xfe, 0xff, 0x02, 0xa4, 0xbd, 0x53,
+        0x05, 0xd8, 0xa1, 0x09, 0x08, 0xd8, 0x39, 0x33, 0x48, 0x7d, 0x9d, 0x29, 0x53, 0xa7, 0xed, 0x73,
+    ];
+    for x in 1u8..=255 {
+        let mut compressed = [0u8; 48];
+        compressed[0] = 0x80;
+        compressed[47] = x;
+        unsafe {
+            let mut affine = blst::blst_p1_affine::default();
+            if blst::blst_p1_uncompress(&mut affine, compressed.as_ptr()) != blst::BLST_ERROR::BLST_SUCCESS { continue; }
+            let mut point = blst::blst_p1::default();
+            blst::blst_p1_from_affine(&mut point, &affine);
+            let mut torsion = blst::blst_p1::default();
+            blst::blst_p1_mult(&mut torsion, &point, GROUP_ORDER_LE.as_ptr(), 255);
+            if blst::blst_p1_is_inf(&torsion) { continue; }
+            return Some(torsion);
+        }
+    }
+    None
+}
+
 /// the specification of the coefficients of `BlsSignature::aggregate`: e_i = Blake2b-128(sig_1 ‖ … ‖ sig_n ‖ be64(i))
 fn spec_coefficients(sigs: &[Vec<u8>]) -> Vec<Vec<u8>> {
     use blake2::digest::consts::U16;
@@ -365,6 +390,29 @@ fn main() {
                     }
                     d = p1_add(&d, &step); d = p1_add(&d, &p1_from(&sig_bytes[a]));
                 }
+            }
+        }
+        // ---- a signature with a component OUTSIDE the prime-order group: sigma + n*T, T in the cofactor subgroup. The
+        // pairing cannot tell it from sigma, the lottery is drawn on its bytes (fresh draws for the same message): it
+        // must be refused when decoded (group check). Indices re-derived for the new bytes, k lowered to what is covered.
+        if let Some(t) = cofactor_point() {
+            let sig_a = bytes_of(&honest_v["signatures"][a][0]["sigma"]);
+            let mut acc = p1_from(&sig_a);
+            for _n in 0..40 {
+                acc = p1_add(&acc, &t);
+                let sg = p1_to(&acc);
+                let mut v = honest_v.clone();
+                let mut used: std::collections::BTreeSet<u64> = v["signatures"].as_array().unwrap().iter().enumerate().filter(|(i, _)| *i != a)
+                    .flat_map(|(_, s)| s[0]["indexes"].as_array().unwrap().iter().map(|x| x.as_u64().unwrap()).collect::<Vec<_>>()).collect();
+                let st = v["signatures"][a][1][1].as_u64().unwrap();
+                let idx: Vec<u64> = (0..m).filter(|i| !used.contains(i) && ctx.won(&params, &sg, *i, st)).collect();
+                if idx.is_empty() { continue; }
+                used.extend(idx.iter().cloned());
+                v["signatures"][a][0]["sigma"] = json!(sg);
+                v["signatures"][a][0]["indexes"] = json!(idx);
+                let mut p2 = params; p2.k = used.len() as u64;
+                cases.push(("sigma-plus-cofactor-point", v, p2));
+                break;
             }
         }
         // other parameters: larger k, smaller m than signed for
